@@ -1,7 +1,7 @@
 (* C03 - No silent change, no phantom change, consistent counts. *)
 From Coq Require Import List NArith Arith Bool String.
 From WMD Require Import Gen.Tables Lib.Str Lib.PyChars Lib.Escape Lib.Difflib Model.RenderTokens Model.RenderMerge
-     Proofs.DifflibProofs Proofs.DifflibSound Proofs.MergeProofs Proofs.TokenProofs Proofs.AssembleProofs Proofs.RenderProofs Proofs.UrlRuleProofs.
+     Proofs.DifflibProofs Proofs.DifflibSound Proofs.MergeProofs Proofs.TokenProofs Proofs.AssembleProofs Proofs.RenderProofs Proofs.UrlRuleProofs Proofs.PageWords.
 Import ListNotations.
 Open Scope N_scope.
 
@@ -66,6 +66,18 @@ Theorem C03_detection_under_rules : forall rules old new,
   forall i, (i < List.length old)%nat ->
     token_same_key (nth i new dtoken) (nth i old dtoken) = true \/ token_eq rules (nth i old dtoken) (nth i new dtoken) = true.
 Proof. exact no_change_means_related. Qed.
+
+(* detection at page level: the words, opaque elements and link targets carried by the token list
+   are exactly those of the flattened page (through tokenising, customisation and the spacer cap,
+   for every cap); so if no change is reported (rules off) both pages have the same sequence of
+   words, opaque elements and link targets - any difference in them is reported *)
+Theorem C03_tokens_carry_the_page : forall root cap, vis_all (prepare root cap) = page_vis root.
+Proof. exact prepare_vis. Qed.
+
+Theorem C03_detection_pages : forall old_root new_root cap,
+  change_count (count_changes (token_opcodes None (prepare old_root cap) (prepare new_root cap))) = 0%nat ->
+  page_vis old_root = page_vis new_root.
+Proof. exact no_change_same_page_content. Qed.
 
 (* every block the matcher returns relates its elements pairwise (dict key or ==), for any sequences *)
 Theorem C03_blocks_sound : forall rules (old new : list token) alo ahi blo bhi,
